@@ -4,4 +4,4 @@
 ROOT="$(cd "$(dirname "$0")/.." && pwd)"
 P="${1:-6}"; G="${2:-*}"
 ls -d "$ROOT"/seeded/$G/ | while read d; do k=$(basename "$d"); echo "${k%-*} $d"; done |
-  xargs -P "$P" -L 1 bash -c 'SEEDRUN_LINES=4 bash "'"$ROOT"'/tools/seedrun.sh" "$1/patch.diff" "$0" quick 2>&1 | sed "s#^== \(C[0-9]*\) quick patch.diff#== \1 quick $(basename $1)#"'
+  xargs -P "$P" -L 1 bash -c 'SEEDRUN_LINES=4 VERIF_NO_FP=${VERIF_NO_FP-1} bash "'"$ROOT"'/tools/seedrun.sh" "$1/patch.diff" "$0" quick 2>&1 | sed "s#^== \(C[0-9]*\) quick patch.diff#== \1 quick $(basename $1)#"'
